@@ -2,6 +2,7 @@ package gvc
 
 import (
 	"fmt"
+	"os"
 	"go/constant"
 	"go/types"
 	"regexp"
@@ -130,6 +131,7 @@ type VC struct {
 	canaries bool
 	inlineDepth int
 	faTags   map[string]int
+	storeDefs map[string]storeDef
 	pure     int
 	noFacts  int
 	onlyOpcase string
@@ -414,8 +416,27 @@ func (vc *VC) newVersion(st *State, key string) (oldName, newName string) {
 	return
 }
 
+type storeDef struct{ prev, addr, val string }
+
 func (vc *VC) hload(st *State, key, elemSort, addr string) T {
 	h := vc.heapName(st, key, elemSort)
+	if os.Getenv("GVC_DEBUG") == "2" {
+		fmt.Println("hload", key, addr, "cur", h, "def", vc.storeDefs[h])
+	}
+	// resolve select-over-store syntactically
+	for {
+		d, ok := vc.storeDefs[h]
+		if !ok {
+			break
+		}
+		if d.addr == addr {
+			return T{S: d.val, Sort: elemSort}
+		}
+		if !distinctAddr(d.addr, addr) {
+			break
+		}
+		h = d.prev
+	}
 	return T{S: app("select", h, addr), Sort: elemSort}
 }
 
@@ -423,6 +444,53 @@ func (vc *VC) hstore(st *State, key, elemSort, addr string, v T) {
 	vc.heapSort[key] = elemSort
 	o, n := vc.newVersion(st, key)
 	vc.assume(st, eq(n, app("store", o, addr, v.S)))
+	vc.storeDefs[n] = storeDef{prev: o, addr: addr, val: v.S}
+}
+
+// distinctAddr: two address terms that can never be equal (purely
+// syntactic, sound): different allocation constants, an allocation
+// constant vs a parameter or global, different globals, cells of the same
+// array with different numeral indices.
+func distinctAddr(a, b string) bool {
+	if a == b {
+		return false
+	}
+	ka, kb := addrKind(a), addrKind(b)
+	if ka == "" || kb == "" {
+		// eaddr with same array and different numeral index
+		if strings.HasPrefix(a, "(eaddr ") && strings.HasPrefix(b, "(eaddr ") {
+			pa, pb := splitArgs(a[7:len(a)-1]), splitArgs(b[7:len(b)-1])
+			if len(pa) == 2 && len(pb) == 2 && pa[0] == pb[0] && isNumeral(pa[1]) && isNumeral(pb[1]) && pa[1] != pb[1] {
+				return true
+			}
+			if len(pa) == 2 && len(pb) == 2 && addrKind(pa[0]) == "alloc" && addrKind(pb[0]) == "alloc" && pa[0] != pb[0] {
+				return true
+			}
+		}
+		return false
+	}
+	if ka == "alloc" && kb == "alloc" {
+		return true // different names
+	}
+	if ka != kb {
+		return true // alloc vs param/global, param vs global
+	}
+	if ka == "global" {
+		return true
+	}
+	return false
+}
+
+func addrKind(a string) string {
+	switch {
+	case strings.HasPrefix(a, "a!") || strings.HasPrefix(a, "arr!") || strings.HasPrefix(a, "map!") || strings.HasPrefix(a, "clo!"):
+		return "alloc"
+	case strings.HasPrefix(a, "p_") && !strings.ContainsAny(a, " ("):
+		return "param"
+	case strings.HasPrefix(a, "(- ") && isNumeral(a[3:len(a)-1]):
+		return "global"
+	}
+	return ""
 }
 
 func fieldKey(si *structInfo, i int) string { return fmt.Sprintf("F_%s_%d", si.name, i) }
@@ -723,6 +791,10 @@ func (vc *VC) check(st *State, cond, kind, where string) {
 	if cond == "true" {
 		return
 	}
+	if vc.pure > 0 {
+		vc.assumeCond(st, cond)
+		return
+	}
 	blk := st.ctx.blk
 	switch {
 	case blk.NoPanic || blk.NoFault():
@@ -732,6 +804,16 @@ func (vc *VC) check(st *State, cond, kind, where string) {
 		vc.oblige(st, "fails_iff.only."+kind, where, or(cond, f), nil, where)
 	}
 	vc.assumeCond(st, cond)
+}
+
+// checkNonNil: nil check for address a, remembered on this path.
+func (vc *VC) checkNonNil(st *State, a, where string) {
+	c := vc.nonnil(st, a)
+	if c == "true" {
+		return
+	}
+	vc.check(st, c, "nil", where)
+	st.known["nonnil:"+a] = "1"
 }
 
 func (b *Block) NoFault() bool {
@@ -823,7 +905,19 @@ func (vc *VC) globalAddr(g *ssa.Global) T {
 		vc.globals[k] = a
 		vc.decls = append(vc.decls, fmt.Sprintf("(assert (= (root (- %d)) (- %d))) ; global %s", -a, -a, k))
 	}
-	return I(a)
+	r := I(a)
+	elem := g.Type().(*types.Pointer).Elem()
+	if isModStruct(vc, elem) == nil {
+		if _, isArr := elem.Underlying().(*types.Array); !isArr {
+			key := "G_" + mangle(k)
+			vc.heapSort[key] = vc.sortOf(elem)
+			if !vc.P.MutableGlobals[k] {
+				vc.heapImm[key] = true
+			}
+			r.Loc = &Loc{Key: key, Base: r.S}
+		}
+	}
+	return r
 }
 
 func (vc *VC) val(st *State, fr *Frame, v ssa.Value) T {
